@@ -383,7 +383,8 @@ def rule_permexh(ctx):
             last = perm_ret[0].term.a[-1]
             good = last.op == "call" and call_name(last) in ("np.asarray", "np.array") or (last.op == "sub" and last.a[0].op == "call" and call_name(last.a[0]) == "builtins.list") or last.op == "sub"
             npl = noperm_ret[0].term.a[-1]
-            good = good and npl.op == "call" and call_name(npl) == "np.arange"
+            # (the identity permutation 0 .. nsrc-1: np.arange with the count as its only argument)
+            good = good and npl.op == "call" and call_name(npl) == "np.arange" and len(npl.a[1]) == 1 and not npl.a[2]
             # the scores returned with the permutation are gathered with the same (popt, arange) index
             idxs = {x.a[1] for x in perm_ret[0].term.a[:-1] if x.op == "sub"}
             good = good and len(idxs) == 1
